@@ -31,8 +31,33 @@ const stdSub = "alice@pool.example"
 func hdrFor(kid string) string { return `{"alg":"HS256","kid":"` + kid + `","typ":"JWT"}` }
 
 type keyring struct {
-	pool, k1, k2, evil []byte // raw key bytes as the issuer holds them
-	w0, w1             world
+	pool, k1, k2, evil []byte         // raw key bytes as the issuer holds them
+	long               map[int][]byte // named keys "L<n>" of n bytes, around and beyond AUTH_PW_KEY_LEN
+	longPool           []byte         // a pool key whose doubled form exceeds AUTH_PW_KEY_LEN
+	w0, w1, wLongPool  world
+}
+
+// key lengths around and beyond AUTH_PW_KEY_LEN (256): the signature must depend on every key byte
+var longKeyLens = []int{255, 256, 257, 300, 1024}
+
+func longKid(n int) string { return fmt.Sprintf("L%d", n) }
+
+// keyVariant: a key an issuer that does NOT hold [key] could have: the first
+// 256 bytes only (kind 0), or all bytes but the last one changed (kind 1), or
+// one more byte (kind 2)
+func keyVariant(key []byte, kind int) []byte {
+	switch kind {
+	case 0:
+		if len(key) > 256 {
+			return append([]byte{}, key[:256]...)
+		}
+		return append([]byte{}, key[:len(key)-1]...)
+	case 1:
+		k := append([]byte{}, key...)
+		k[len(k)-1] ^= 0x01
+		return k
+	}
+	return append(append([]byte{}, key...), 0x00)
 }
 
 func scr(b []byte) []byte { return unscramble(b) } // XOR is an involution
@@ -47,6 +72,13 @@ func newKeyring(c *core.Ctx) *keyring {
 	}
 	k := &keyring{pool: rnd(24), k1: rnd(16), k2: rnd(16), evil: rnd(16)}
 	named := map[string][]byte{"k1": scr(k.k1), "k2": scr(k.k2), "empty": {}}
+	k.long = map[int][]byte{}
+	for _, n := range longKeyLens {
+		k.long[n] = rnd(n)
+		named[longKid(n)] = scr(k.long[n])
+	}
+	k.longPool = rnd(150)
+	k.wLongPool = world{Pool: scr(k.longPool), Named: named, MaxAge: 0, Trust: "pool.example"}
 	k.w0 = world{Pool: scr(k.pool), Named: named, MaxAge: 0, Trust: "pool.example"}
 	k.w1 = world{Pool: scr(k.pool), Named: named, MaxAge: 600, Trust: ""}
 	return k
@@ -119,6 +151,31 @@ func serverCatalogue(c *core.Ctx, kr *keyring) []sCase {
 		s = base("honest-two-at")
 		s.Sub, s.Tok.Pl = "bob@a@b", strings.Replace(stdPl, stdSub, "bob@a@b", 1)
 		add(s)
+	}
+	// --- long keys: every byte of the key the server holds enters the signature
+	for _, n := range longKeyLens {
+		if n == 1024 && c.Quick() {
+			continue // covered at the VerifyIDToken / loadSigningKey level in the quick tier
+		}
+		s := base(fmt.Sprintf("honest-longkey%d", n))
+		s.Tok.Hdr, s.Tok.SignKey = hdrFor(longKid(n)), kr.long[n]
+		add(s)
+		for kind := 0; kind < 3; kind++ {
+			s = base(fmt.Sprintf("key-long%d-variant%d", n, kind))
+			s.Tok.Hdr, s.Tok.SignKey, s.Expect = hdrFor(longKid(n)), keyVariant(kr.long[n], kind), 0
+			add(s)
+		}
+	}
+	{
+		dbl := append(append([]byte{}, kr.longPool...), kr.longPool...)
+		s := base("honest-longpool")
+		s.W, s.Tok.Hdr, s.Tok.SignKey = kr.wLongPool, hdrFor("POOL"), dbl
+		add(s)
+		for kind := 0; kind < 3; kind++ {
+			s = base(fmt.Sprintf("key-longpool-variant%d", kind))
+			s.W, s.Tok.Hdr, s.Tok.SignKey, s.Expect = kr.wLongPool, hdrFor("POOL"), keyVariant(dbl, kind), 0
+			add(s)
+		}
 	}
 	// --- keys
 	{
